@@ -46,6 +46,12 @@ func ParseTags(tag string, n *Node) ([]string, error) {
 			out = append(out, "TDive")
 		case "ctor-headers":
 			out = append(out, "TCtorHeaders")
+		case "ctor-rel":
+			r, err := ParseRel(param)
+			if err != nil {
+				return nil, err
+			}
+			out = append(out, fmt.Sprintf("TCtorRel %s %s", r.Pre.Coq(), r.Post.Coq()))
 		case "endpoint":
 			out = append(out, "TEndpoint")
 		case "url-path":
